@@ -8,7 +8,7 @@ use serde_json::Value;
 
 use crate::gen_vm::{leaf, model_opens, parse_genes, Gene};
 use crate::model::real::Tables;
-use crate::model::vm::{ExecOp, Ins, Prog};
+use crate::model::vm::{ExecOp, Ins};
 use crate::{ensure, fail, guarded, panic_key, Ctx, Fail, Probe};
 
 fn flatten<'a>(p: &'a [PushProgram], out: &mut Vec<&'a push::instruction::PushInstruction>) {
